@@ -4,7 +4,7 @@ patch=$1; shift
 cd /repo || exit 2
 if ! git apply --check "$patch" 2>/dev/null; then
   if ! git apply --check -3 "$patch" 2>/dev/null && ! patch -p1 --dry-run -F3 < "$patch" >/dev/null 2>&1; then echo "PATCH DOES NOT APPLY: $patch"; exit 3; fi
-  patch -p1 -F3 < "$patch" >/dev/null
+  patch -p1 -F3 --no-backup-if-mismatch -r - < "$patch" >/dev/null || { git -C /repo checkout -- .; echo "PATCH REJECTED: $patch"; exit 3; }
 else
   git apply "$patch"
 fi
